@@ -170,7 +170,12 @@ func (X *Exec) preHeap(name string, srt *Sort) *Term {
 		X.heapSorts[name] = srt
 		return t
 	}
-	t := X.E.TS.Const(sanitize(name)+"@pre", srt)
+	cn := sanitize(name) + "@pre"
+	if strings.HasPrefix(name, "GH|") {
+		// function-local ghosts of different contracts may share a name (one term store per process)
+		cn = sanitize(name) + "$" + sanitize(srt.Name) + "@pre"
+	}
+	t := X.E.TS.Const(cn, srt)
 	X.pre[name] = t
 	X.heapSorts[name] = srt
 	return t
